@@ -19,51 +19,74 @@ Definition newest_present (items : list item) (top : N) : bool :=
 Definition holds_position (off ep top epc : N) : bool :=
   (off =? top) && (ep =? epc) && negb (ep =? 0).
 
-Definition cache_ok_on (off ep : N) (fl : list N) (full : out) (recovered : bool) (pubs : list item) : bool :=
+(* [extra] = the publications stored while the subscribe ran (raced ones, then
+   the cache-empty handler's), whatever the filters say about them; the newest
+   visible publication is looked for among the retained ones and these (a raced
+   publication may already have been trimmed again when the reply is checked) *)
+Fixpoint stored_items (ps : list (N * popts)) (outs : list out) : list item :=
+  match ps, outs with
+  | (id, _) :: r, OPub off _ 0 _ :: os => mkItem off id :: stored_items r os
+  | _ :: r, _ :: os => stored_items r os
+  | _, _ => []
+  end.
+
+Definition cache_ok_on (off ep : N) (fl : list N) (extra : list item) (full : out)
+           (recovered : bool) (pubs : list item) : bool :=
   match full with
   | OHist items top epc =>
       (match pubs with
        | [] => true
-       | [p] => match newest_visible fl items with Some nv => item_eqb p nv | None => false end
+       | [p] => match newest_visible fl (items ++ extra) with Some nv => item_eqb p nv | None => false end
        | _ => false
        end) &&
       Bool.eqb recovered (newest_present items top || holds_position off ep top epc)
   | _ => false
   end.
 
-Definition populates (h : chandler) : bool := match h with HPopulate _ _ => true | _ => false end.
+Definition populates (h : chandler) : bool := match h with HPopulate _ => true | _ => false end.
 
-Definition cache_ok (off ep : N) (fl : list N) (hnd : chandler) (full full2 : out) (res : sres) : bool :=
+(* the property holds of the reply with respect to the channel content just
+   before the subscribe, or - when publications arrived while it ran (the
+   cache-empty handler populated the channel, or a publish raced the read) -
+   with respect to the content just after it *)
+Definition hnd_pubs (h : chandler) : list (N * popts) :=
+  match h with HPopulate ps => ps | _ => [] end.
+
+Definition cache_ok (off ep : N) (fl : list N) (hnd : chandler) (race : list (N * popts))
+           (race_out hnd_out : list out) (full full2 : out) (res : sres) : bool :=
+  let extra := stored_items race race_out ++ stored_items (hnd_pubs hnd) hnd_out in
   match res with
   | ROk recovered pubs _ _ =>
-      cache_ok_on off ep fl full recovered pubs ||
-      (populates hnd && cache_ok_on off ep fl full2 recovered pubs)
+      cache_ok_on off ep fl extra full recovered pubs ||
+      ((populates hnd || match race with [] => false | _ => true end) &&
+       cache_ok_on off ep fl [] full2 recovered pubs)
   | RErr _ => false
   end.
 
 Definition step_ok (s : rstep) : bool :=
   match s with
-  | TCache ch off ep uf fl hnd full full2 res => cache_ok off ep fl hnd full full2 res
+  | TCache ch off ep uf fl hnd race race_out hnd_out full full2 res =>
+      cache_ok off ep fl hnd race race_out hnd_out full full2 res
   | _ => true
   end.
 
 Definition oracle (c : case) : bool := forallb step_ok (c_steps c).
 
 (* the same, as a proposition *)
-Definition CacheOn (off ep : N) (fl : list N) (full : out) (recovered : bool) (pubs : list item) : Prop :=
+Definition CacheOn (off ep : N) (fl : list N) (extra : list item) (full : out) (recovered : bool) (pubs : list item) : Prop :=
   exists items top epc, full = OHist items top epc /\
-    (pubs = [] \/ exists p, pubs = [p] /\ newest_visible fl items = Some p) /\
+    (pubs = [] \/ exists p, pubs = [p] /\ newest_visible fl (items ++ extra) = Some p) /\
     (recovered = true <-> newest_present items top = true \/ holds_position off ep top epc = true).
 
-Lemma cache_ok_on_sound : forall off ep fl full recovered pubs,
-  cache_ok_on off ep fl full recovered pubs = true <-> CacheOn off ep fl full recovered pubs.
+Lemma cache_ok_on_sound : forall off ep fl extra full recovered pubs,
+  cache_ok_on off ep fl extra full recovered pubs = true <-> CacheOn off ep fl extra full recovered pubs.
 Proof.
   intros. unfold cache_ok_on, CacheOn.
   destruct full as [| items top epc | |]; try (split; [discriminate|intros (i & t & e & X & _); discriminate]).
   rewrite andb_true_iff. split.
   - intros [A B]. exists items, top, epc. split; auto. split.
     + destruct pubs as [|p [|q r]]; auto; [|discriminate].
-      destruct (newest_visible fl items) as [nv|]; [|discriminate].
+      destruct (newest_visible fl (items ++ extra)) as [nv|]; [|discriminate].
       right. exists p. split; auto. f_equal. symmetry.
       apply Proofs.MemStream.item_eqb_eq. rewrite <- A.
       unfold item_eqb. rewrite (N.eqb_sym (i_off p)), (N.eqb_sym (i_id p)). reflexivity.
